@@ -39,9 +39,12 @@ func (d FileDisk) ReadTo(a uint64, buf Block) {
 	if a >= d.numBlocks {
 		panic(fmt.Errorf("out-of-bounds read at %v", a))
 	}
-	_, err := unix.Pread(d.fd, buf, int64(a*BlockSize))
+	n, err := unix.Pread(d.fd, buf, int64(a*BlockSize))
 	if err != nil {
 		panic("read failed: " + err.Error())
+	}
+	if uint64(n) != BlockSize {
+		panic(fmt.Errorf("short read: %d bytes", n))
 	}
 }
 
@@ -58,9 +61,12 @@ func (d FileDisk) Write(a uint64, v Block) {
 	if a >= d.numBlocks {
 		panic(fmt.Errorf("out-of-bounds write at %v", a))
 	}
-	_, err := unix.Pwrite(d.fd, v, int64(a*BlockSize))
+	n, err := unix.Pwrite(d.fd, v, int64(a*BlockSize))
 	if err != nil {
 		panic("write failed: " + err.Error())
+	}
+	if uint64(n) != BlockSize {
+		panic(fmt.Errorf("short write: %d bytes", n))
 	}
 }
 
